@@ -266,6 +266,7 @@ pub fn spec() -> PropSpec {
                 v
             }, eval_marker),
             PropCheck::new("truncation", |_| (gen::amf_values(AmfCfg::WIRE, 5), proptest::collection::vec(any::<u16>(), 24)).prop_map(|(values, cuts)| TruncCase { values, cuts }).boxed(), 20_000, 600_000, eval_trunc),
+            crate::targets::corpus_check(&["amf0_diff"]),
         ],
     }
 }
